@@ -64,6 +64,25 @@ func (s *Session) verifyFunc(fn *ssa.Function, c *Contract) (vc *FnVC, err error
 		args = append(args, t)
 	}
 	for i, p := range fn.Params {
+		// distinct mutex-pointer fields of a parameter's struct hold distinct mutexes (listed assumption)
+		if pt := derefType(p.Type()); pt != nil && s.te.isStructVal(pt) {
+			stt := pt.Underlying().(*types.Struct)
+			var ptrs []Term
+			for k := 0; k < stt.NumFields(); k++ {
+				if mt := derefType(stt.Field(k).Type()); mt != nil {
+					if n, ok := types.Unalias(mt).(*types.Named); ok && (qualName(n) == "sync.Mutex" || qualName(n) == "sync.RWMutex") {
+						ptrs = append(ptrs, s.te.Load(st, s.te.FieldLoc(pt, k, args[i])))
+					}
+				}
+			}
+			if len(ptrs) > 1 {
+				var ss []string
+				for _, t := range ptrs {
+					ss = append(ss, t.S)
+				}
+				vc.assume(Term{"(distinct " + strings.Join(ss, " ") + ")", SBool})
+			}
+		}
 		fr.vals[p] = args[i]
 		fr.paramVals[p.Name()] = args[i]
 		fr.observe(p.Name(), p.Type(), args[i], 0, &vc.obs)
@@ -77,12 +96,23 @@ func (s *Session) verifyFunc(fn *ssa.Function, c *Contract) (vc *FnVC, err error
 			vc.assume(Term{fmt.Sprintf("(and (not (= %s 0)) (old_alloc %s))", t.S, t.S), SBool})
 		}
 		fr.vals[fv] = t
+		if fvIsAddr(fv) {
+			// the cell of a variable captured by reference is known only to the enclosing function and this closure:
+			// unknown callees cannot change it
+			fr.unescaped[t.S] = true
+		}
 	}
 	// requires
 	entryEnv := func(state *State) *Env {
 		env := fr.specEnv(state, fr.oldState)
 		env.entryOnly = true
 		return env
+	}
+	if c.Implicit {
+		// implicit contract of the lock sweep: the function is entered with no lock of this goroutine held
+		w := st.Get("ghost_LockW", arraySort(SInt, SBool))
+		r := st.Get("ghost_LockR", arraySort(SInt, SBool))
+		vc.assume(Term{fmt.Sprintf("(forall ((m Int)) (! (and (not (select %s m)) (not (select %s m))) :pattern ((select %s m)) :pattern ((select %s m))))", w.S, r.S, w.S, r.S), SBool})
 	}
 	for k, r := range c.Requires {
 		t, e := entryEnv(st).evalBool(r.E)
